@@ -5,7 +5,7 @@ import re
 from . import common
 
 
-def analyze(dirpath, flags=None, seq=False, sanity=False, patterns=(), timeout=900, env=None, sites=False):
+def analyze(dirpath, flags=None, seq=False, sanity=False, patterns=(), timeout=900, env=None, sites=False, fileorder=None):
     args = ["analyze", "-dir", dirpath]
     for k, v in (flags or {}).items():
         args += ["-flag", "%s=%s" % (k, v)]
@@ -15,6 +15,8 @@ def analyze(dirpath, flags=None, seq=False, sanity=False, patterns=(), timeout=9
         args.append("-sanity")
     if sites:
         args.append("-sites")
+    if fileorder:
+        args += ["-fileorder", fileorder]
     args += list(patterns)
     rc, out, err = common.harness(args, timeout=timeout, env=env)
     if rc != 0:
